@@ -85,7 +85,7 @@ def write_step(rng, conn, state):
         conn.execute("COMMIT")
         return "drop and recreate %s with reversed columns" % t
     conn.execute("CREATE TABLE IF NOT EXISTS filler(a, b)")
-    conn.execute("INSERT INTO filler VALUES(1, 2)")
+    conn.execute("INSERT INTO filler(a, b) VALUES(1, 2)")
     return "insert into filler"
 
 
